@@ -11,3 +11,5 @@ def run(ctx):
     json_framing(ctx)
     print_structure(ctx)
     arithmetic(ctx, which=None if not ctx.quick else ['add', 'times', 'divide', 'round'], ill_typed=False)
+    from ..conform import conformance
+    conformance(ctx, ['roundtrip'])      # strict-JSON read-back and byte-for-byte fixpoint on seeded values (validates the references; never decides)
